@@ -382,6 +382,64 @@ def bufArgInit : BufArg → Except Exc (Option Nat × Bool)
   | .bool true => .ok (some 1, false)
   | .bool false => .error .lenaValueError
 
+/-! ## how the flow is handed over; the Cache rule of `Split.__init__` -/
+
+/-- the argument of `Split.run`: a container that can be iterated again (list, tuple, range), or
+a one-shot iterator (`iter(...)`, a generator) -/
+inductive FlowArg (α : Type) where
+  | container (xs : List α)
+  | iterator (xs : List α)
+
+/-- `flow = iter(flow)` (split.py:344): from here on the loop works on ONE iterator, so every
+`itertools.islice(flow, bufsize)` continues where the previous one stopped — also for a container -/
+def FlowArg.iter : FlowArg α → List α
+  | .container xs => xs
+  | .iterator xs => xs
+
+/-- `Split.run(flow)` for a flow handed over in either way -/
+def Split.runOn (s : Split σ α) (fa : FlowArg α) : List α := s.run fa.iter
+
+/-- what `_contains_cache` (split.py:74-85) looks at: an element (with or without the attribute
+`is_cache`), a `LenaSequence` (its `_seq`), a `LenaSplit` (its `_seqs`) -/
+inductive CTree where
+  | el (isCache : Bool)
+  | seq (els : List CTree)
+  | split (seqs : List CTree)
+
+mutual
+/-- `_contains_cache(seq)` -/
+def containsCache : CTree → Bool
+  | .el c => c                                   -- `getattr(seq, "is_cache", False)`
+  | .seq els => containsCacheL els               -- `any(_contains_cache(el) for el in seq._seq)`
+  | .split seqs => containsCacheL seqs           -- `any(_contains_cache(el) for el in seq._seqs)`
+def containsCacheL : List CTree → Bool
+  | [] => false
+  | t :: r => containsCache t || containsCacheL r
+end
+
+/-- split.py:252-259: `if bufsize is not None and any(seq_type == "sequence" and
+_contains_cache(seq) …): bufsize = None` — a Split with a Cache inside a plain-Sequence branch
+reads the whole flow at once -/
+def cacheRule (bufsize : Option Nat) (brs : List (Kind × CTree)) : Option Nat :=
+  if bufsize.isSome && brs.any (fun p => p.1 == .sequence && containsCache p.2) then none else bufsize
+
+/-- the structure `_contains_cache` sees for an argument after `_get_seq_with_type`: a tuple /
+list / single element is wrapped into a sequence of its elements; `cache` says which of the
+elements have `is_cache` (one flag per element) -/
+def objCTree (o : Obj) (cache : List Bool) : CTree :=
+  match o with
+  | .tuple els => .seq ((List.range els.length).map (fun i => .el (cache.getD i false)))
+  | .list els => .seq ((List.range els.length).map (fun i => .el (cache.getD i false)))
+  | _ => .seq [.el (cache.getD 0 false)]
+
+/-- `Split.__init__` with the Cache rule: `splitInit`, then `cacheRule` on the classified
+arguments -/
+def splitInitC (seqsIsList : Bool) (objs : List (Obj × List Bool)) (bufsize : Option Int) :
+    Except Exc (List Kind × Option Nat) :=
+  match splitInit seqsIsList (objs.map (·.1)) bufsize with
+  | .error e => .error e
+  | .ok (kinds, bs) => .ok (kinds, cacheRule bs (kinds.zip (objs.map (fun p => objCTree p.1 p.2))))
+
 /-! ## harness vocabulary, part 2 -/
 
 /-- a harness element that raises `ValueError`: from `fill` once `boomFill` values were accepted,
@@ -391,24 +449,27 @@ structure XSpec where
   base : HSpec
   boomFill : Option Nat
   boomGen : Option Nat
+  /-- the exception class raised from inside a generator: `ValueError`, or `LenaStopFill` (which
+  `Split.run` catches around `fill` only), or a `BaseException` such as `KeyboardInterrupt` -/
+  boomExc : String := "ValueError"
 
 /-- a generator that raises after `j` values, if it has at least `j` -/
-def boomAfter (boom : Option Nat) (r : List V × BState) : List V × BState × Option String :=
+def boomAfter (exc : String) (boom : Option Nat) (r : List V × BState) : List V × BState × Option String :=
   match boom with
-  | some j => if j ≤ r.1.length then (r.1.take j, r.2, some "ValueError") else (r.1, r.2, none)
+  | some j => if j ≤ r.1.length then (r.1.take j, r.2, some exc) else (r.1, r.2, none)
   | none => (r.1, r.2, none)
 
 def XSpec.ops (tag : Nat) (x : XSpec) : OpsX BState V String :=
   let o := x.base.ops tag
-  { call := fun s => boomAfter x.boomGen (o.call s)
+  { call := fun s => boomAfter x.boomExc x.boomGen (o.call s)
     fill := fun s v =>
       match x.boomFill with
       | some k => if s.n ≥ k then (s, .raised "ValueError")
                   else ((o.fill s v).1, if (o.fill s v).2 then .stop else .ok)
       | none => ((o.fill s v).1, if (o.fill s v).2 then .stop else .ok)
-    compute := fun s => boomAfter x.boomGen (o.compute s)
-    request := fun s => boomAfter x.boomGen (o.request s)
-    run := fun s buf => boomAfter x.boomGen (o.run s buf) }
+    compute := fun s => boomAfter x.boomExc x.boomGen (o.compute s)
+    request := fun s => boomAfter x.boomExc x.boomGen (o.request s)
+    run := fun s buf => boomAfter x.boomExc x.boomGen (o.run s buf) }
 
 /-- state of a branch of the enclosing Split: a harness element, a nested common-type Split
 (used through fill/compute/request), or a nested Split used through `run` -/
@@ -476,6 +537,14 @@ inductive OSpecX where
   fill/compute/request, otherwise (`_get_seq_with_type` finds `run` only) through `run` -/
   | nest (inner : List BSpec) (bufsize : Option Nat)
 
+/-- what `_contains_cache` sees of a harness element given to a Split (in any of its forms it
+ends up inside a `Sequence`/`FillComputeSeq`/…): only the `cache` run element has `is_cache` -/
+def BSpec.ctree : BSpec → CTree
+  | .sq .cache => .seq [.el true]
+  | _ => .seq [.el false]
+
+def bspecKinds (inner : List BSpec) : List (Kind × CTree) := inner.map (fun b => (b.kind, b.ctree))
+
 /-- `_get_seq_with_type` of a nested Split: fill/compute, fill/request, or (no `fill`) sequence -/
 def nestKindX (inner : List BSpec) : Kind :=
   let m := methodsOf (inner.map BSpec.kind)
@@ -490,10 +559,18 @@ def mkBranchesX (start : Nat) : List OSpecX → List (BranchX NStateX V String)
     let brs := mkHarnessBranches (100 * (start + 1)) inner
     (match nestKindX inner with
       | .sequence =>
+        -- the nested Split applies the Cache rule to its own `bufsize`
         { id := start, kind := .sequence, ops := nestedRunOpsX,
-          st := .nestedRun { branches := brs, bufsize := bs, copyBuf := true } }
+          st := .nestedRun { branches := brs, bufsize := cacheRule bs (bspecKinds inner), copyBuf := true } }
       | k => { id := start, kind := k, ops := nestedOpsX, st := .nested brs }) ::
       mkBranchesX (start + 1) rest
+
+/-- kind and `_contains_cache` structure of the branches of a harness case -/
+def ospecKinds : List OSpecX → List (Kind × CTree)
+  | [] => []
+  | .plain x :: rest => (x.base.base.kind, x.base.base.ctree) :: ospecKinds rest
+  | .nest inner _ :: rest =>
+    (nestKindX inner, .seq [.split (inner.map BSpec.ctree)]) :: ospecKinds rest
 
 /-- consecutive runs of the same `Split` object: `for flow in flows: list(split.run(flow))`,
 stopping at the first run that raises (the objects keep their states between the runs) -/
